@@ -221,7 +221,14 @@ def analyse(ctx, col, case, info, dev, beh, want, verdict):
     top = -2
     saw_reset = False
     prev_n = None
-    for raw in numbered:
+    resend_since_prev = False
+    wire = [(k, p) for _, k, p in dev.events if k in ("rx-raw", "rx-flushed", "tx-resend")]
+    for kind_ev, raw in wire:
+        if kind_ev == "tx-resend":
+            resend_since_prev = True
+            continue
+        if not NUMBERED.match(raw):
+            continue
         m = NUMBERED.match(raw)
         n, cmd, cs = int(m.group(1)), m.group(2), int(m.group(3))
         star = raw.rfind(b"*")
@@ -239,9 +246,15 @@ def analyse(ctx, col, case, info, dev, beh, want, verdict):
         # transmission either continues with the next number or restarts at a lower one (resend);
         # it never skips forward: "a resend request makes transmission restart from the requested line"
         if prev_n is not None and n > prev_n + 1:
+            # known mechanism: the listener stores a new 'Resend: r' (self.resendfrom = r) while the
+            # print thread is executing 'self.resendfrom += 1' (lost update): only possible when a
+            # resend request was issued between the two transmissions
             return fail("transmission-skips-a-line", previous=prev_n, number=n,
-                        mech="c15:wire:skip")
+                        resend_request_in_between=resend_since_prev,
+                        mech="c15:wire:skip-after-concurrent-resend-request" if resend_since_prev
+                        else "c15:wire:skip")
         prev_n = n
+        resend_since_prev = False
         if n in first_seen:
             if first_seen[n] != raw:
                 return fail("resent-line-differs-from-original", number=n,
@@ -326,7 +339,10 @@ def run_shard(ctx, col):
         rng = ctx.rng(case)
         # (a) exhaustive fault subsets on a short job, dealt round-robin over the cases -------------
         n = P["enum_lines"]
-        job = make_job(ctx.rng(0, "enum-job"), n)
+        # fixed job (independent of the seed, so the enumerated space has a known size): a leading
+        # comment-only line, then n commands, one of them with a trailing comment
+        job = ["; enumerated job"] + [f"G1 X{10 * (i + 1)} Y{5 * i} F1200" + (" ; note" if i == 1 else "")
+                                      for i in range(n)]
         ncmd = len(expected_commands(job))
         space = range(0, ncmd + 1 + P["enum_k"] + 1)
         combos = [c for k in range(0, P["enum_k"] + 1) for c in itertools.combinations(space, k)]
@@ -359,5 +375,5 @@ def run_shard(ctx, col):
             lat = rng.choice(["0", "0-3ms", "10-30ms"] + (["100-300ms"] if nlines <= 5 else []))
             stream_job(ctx, col, case, f"random:{j}", rng, job, faults, lat, perturb=rng.random() < 0.8)
         if case == 0:
-            col.sample({"job": make_job(ctx.rng(0, "enum-job"), P["enum_lines"]),
+            col.sample({"job": ["; enumerated job"] + [f"G1 X{10 * (i + 1)} Y{5 * i} F1200" for i in range(P["enum_lines"])],
                         "fault_space": "transmission indices (0 = M110 reset, then job lines and their resends)"})
